@@ -123,10 +123,20 @@ class DeliveryMonitor(netsim.Monitor):
              # structural class of the stuck state (attribute reads, for the signature only)
              "client_rebound": w.client_addr != netsim.C_ADDR,
              "client_handshake_confirmed": bool(cc is not None and cc._handshake_confirmed),
-             "server_handshake_complete": bool(sc is not None and w.ep["s"].hs_done)},
+             "server_handshake_complete": bool(sc is not None and w.ep["s"].hs_done),
+             # from the wire: the key phase bits of the two endpoints' latest 1-RTT packets differ - one of
+             # them updated its keys and the other has not followed (yet)
+             "key_phase_mismatch": _last_phase(w, "c") != _last_phase(w, "s")},
             "fair phase ended (%s at t=%.3fs, %d steps) without delivering: %s"
             % (outcome, w.now - w.t0, w.nsteps, "; ".join(miss) or "nothing missing but never quiescent"),
         )
+
+
+def _last_phase(w, name):
+    for r in reversed(w.ep[name].sent_packets):
+        if r.type == "1rtt" and r.opened and r.key_phase is not None:
+            return r.key_phase
+    return 0
 
 
 def goal(w):
@@ -155,10 +165,14 @@ SCRIPTS = {
     "key_update_mid": {"c": [W(0, 1500), {"op": "ku"}, W(0, 1500, True)], "s": [W(1, 300), {"op": "ku", "g": ("rx", 0, 1500)}, W(1, 300, True)]},
     # three key updates, client / client / server, a round trip apart: a packet of an OLDER key phase that
     # arrives late (duplicate, delay) falls between them and must leave no trace
+    # (an endpoint may only initiate an update after a packet of the current phase was acknowledged,
+    # RFC 9001 6.1 - the caller's duty with aioquic - hence the extra exchange before the server's update)
     "key_update_thrice": {"c": [W(0, 600), {"op": "ku", "g": ("rx", 1, 300)}, W(0, 600, g=("rx", 1, 300)),
-                                {"op": "ku", "g": ("rx", 1, 600)}, W(0, 300, True, g=("rx", 1, 600))],
+                                {"op": "ku", "g": ("rx", 1, 600)}, W(0, 300, g=("rx", 1, 600)),
+                                W(0, 300, True, g=("rx", 1, 900))],
                           "s": [W(1, 300, g=("rx", 0, 600)), W(1, 300, g=("rx", 0, 1200)),
-                                {"op": "ku", "g": ("rx", 0, 1500)}, W(1, 300, True, g=("rx", 0, 1500))]},
+                                W(1, 300, g=("rx", 0, 1500)),
+                                {"op": "ku", "g": ("rx", 0, 1800)}, W(1, 300, True, g=("rx", 0, 1800))]},
     "reset_racing": {"c": [W(0, 2500), {"op": "reset", "sid": 0}, W(4, 100, True)]},
     "stop_sending": {"c": [W(0, 2500)], "s": [{"op": "stop", "sid": 0, "g": ("rx", 0, 1)}, W(1, 50, True)]},
     "cid_change_mid": {"c": [W(0, 1500), {"op": "cid"}, W(0, 1500, True)], "s": [{"op": "cid", "g": ("rx", 0, 1)}, W(0, 800, True)]},
